@@ -189,6 +189,12 @@ func cmdCoherence(args []string) {
 					continue
 				}
 				files++
+				for k := 0; k < fd.Imports().Len(); k++ {
+					checks++
+					if imp := fd.Imports().Get(k); imp.IsPlaceholder() {
+						emit("descriptor:placeholder", fp.GetName(), "import "+imp.Path()+" is a placeholder (not resolved when the file registered itself)")
+					}
+				}
 				got := protodesc.ToFileDescriptorProto(fd)
 				want := proto.Clone(fp).(interface {
 					proto.Message
@@ -221,6 +227,34 @@ func cmdCoherence(args []string) {
 		ck(reflect.TypeOf(r.New().Interface()) == goT, "type:msgnew", name, "New() yields another Go type")
 		ck(!r.Type().Zero().IsValid() && r.Type().New().IsValid(), "type:validity", name, "")
 		ck(reflect.TypeOf(mt.New().Interface()) == goT && reflect.TypeOf(mt.Zero().Interface()) == goT, "type:registry-type", name, "")
+		// every field's message / enum type is the registry's own descriptor, not a placeholder left
+		// behind by an import that was not resolved when the file was registered
+		for i := 0; i < md.Fields().Len(); i++ {
+			fd := md.Fields().Get(i)
+			var ref protoreflect.Descriptor
+			switch {
+			case fd.IsMap():
+				if vm := fd.MapValue().Message(); vm != nil {
+					ref = vm
+				} else if ve := fd.MapValue().Enum(); ve != nil {
+					ref = ve
+				}
+			case fd.Message() != nil:
+				ref = fd.Message()
+			case fd.Enum() != nil:
+				ref = fd.Enum()
+			}
+			if ref == nil {
+				continue
+			}
+			checks++
+			if ref.IsPlaceholder() {
+				emit("descriptor:placeholder", name+"."+string(fd.Name()), "field type "+string(ref.FullName())+" is a placeholder descriptor")
+				continue
+			}
+			reg, err := protoregistry.GlobalFiles.FindDescriptorByName(ref.FullName())
+			ck(err == nil && reg == ref, "descriptor:field-type-identity", name+"."+string(fd.Name()), "field type "+string(ref.FullName())+" is not the descriptor the registry holds")
+		}
 		// the deprecated Go API: Descriptor() ([]byte, []int) must lead to this very message
 		if meth := reflect.ValueOf(m).MethodByName("Descriptor"); meth.IsValid() && meth.Type().NumIn() == 0 && meth.Type().NumOut() == 2 {
 			checks++
